@@ -74,6 +74,8 @@ def referencing_queries():
         ("W {a} {b}", None, [[a, b]]),
         ("S count(note) W {a}", ["count", ["note"]], [[a]]),
         ("W Y ({a} | X)", None, [[Y, ["sub", [[a], [X]]]]]),
+        ("W {a} X | Y {a}", None, [[a, X], [Y, a]]),
+        ("W ({a}) ({b}) | {a}", None, [[["sub", [[a]]], ["sub", [[b]]]], [a]]),
     ]
 
 
@@ -136,6 +138,8 @@ def _run_case(ctx, case) -> F.Outcome:
     if kind == "missing":
         _, qtext = case
         (zoq / "qb.zoq").write_text("# W #t1\n")  # exists: prefix of the missing qb.v3
+        (zoq / "outer.zoq").write_text("# W o {inner} G file\n")  # refers to a page that does not exist
+        (zoq / "outer2.zoq").write_text("# S note W {outer} | - O alpha\n")
         exp = expand_saved_queries(ix.zdir, qtext)
         res, err = ix.execute(qtext)
         out.obs = H.digest([exp, err])
@@ -235,7 +239,7 @@ def _cases(ctx):
             for qi in range(nq):
                 cases.append(["ref", ia, ib, ic, style, qi])
     for qtext in ("W {nosuch}", "W o {nosuch}", "S count(note) W {nosuch} #t1", "W {qb} {nosuch}",
-                  "W #t1 | {nosuch}", "W {qb.v3}", "W {qb.}"):
+                  "W #t1 | {nosuch}", "W {qb.v3}", "W {qb.}", "W {outer}", "W #t1 {outer2}", "W {qb} | {outer}"):
         cases.append(["missing", qtext])
     return cases
 
